@@ -89,6 +89,12 @@ def run(rep, idx, tier):
     glue.chunk_width(rep, "C05.9", idx, c, r.SH)
 
 
+def _anc(parents, n):
+    while n in parents:
+        n = parents[n]
+        yield n
+
+
 def overlaps_taint(rep, idx):
     """shadow_overlaps -> _Shadow.overlaps -> only the balance test of prepare()."""
     sh = idx.find_class("Multiplexer._Shadow")
@@ -123,7 +129,8 @@ def overlaps_taint(rep, idx):
         # property of a getter it may also simply be returned
         is_cmp_with_len = isinstance(p, ast.Compare) and any(isinstance(o, ast.Call) and isinstance(o.func, ast.Name) and o.func.id == "len"
                                                              for o in [p.left] + list(p.comparators))
-        ok = (f.name == "prepare" and isinstance(p, ast.Compare)) or is_cmp_with_len or (f.is_property and isinstance(p, ast.Return))
+        ok = (f.name == "prepare" and isinstance(p, ast.Compare)) or is_cmp_with_len or (f.is_property and isinstance(p, ast.Return)) or \
+            f.name in ("__repr__", "__str__") or isinstance(p, ast.FormattedValue)
         if not ok:
             bad.append((f, n))
     site = sh.site
@@ -155,6 +162,13 @@ def overlaps_taint(rep, idx):
             okuse += 1
         elif isinstance(p, ast.Assign) and isinstance(p.targets[0], ast.Attribute):
             okuse += 1
+        elif isinstance(p, ast.Return) and f.is_property:
+            okuse += 1                                  # a read-only view of the configured limit: it decides nothing
+        elif f.name in ("__repr__", "__str__") or any(isinstance(a_, (ast.JoinedStr, ast.Raise)) for a_ in _anc(parents, n)):
+            okuse += 1                                  # shown in a message
+        elif isinstance(p, ast.Compare) and all(isinstance(c_, ast.Constant) and c_.value is None for c_ in p.comparators) and \
+                any(isinstance(a_, ast.If) and any(isinstance(s_, ast.Raise) for s_ in a_.body) for a_ in _anc(parents, n)):
+            okuse += 1                                  # validated
         else:
             rep.bad("C05.7", f.site, f"shadow_overlaps used at line {n.lineno}", "the sharing limit must only be passed to the shadow registers")
     rep.ok("C05.7", mux.site, "Multiplexer only forwards shadow_overlaps to its shadows", f"{okuse} forwarding use(s)", nontrivial=False)
